@@ -102,8 +102,10 @@ pub fn finish() -> usize {
     })
 }
 
+/// `C0`: capacity (in elements) of freshly built storage - 0 for a backend that allocates on demand,
+/// > 0 for a small-buffer / pooled backend whose storage exists from the start.
 #[derive(Clone, Copy, Default)]
-pub struct Reloc;
+pub struct Reloc<const C0: usize = 0>;
 
 pub struct RelocMem {
     ptr: *mut u8,
@@ -139,19 +141,20 @@ impl RelocMem {
     }
 }
 
-impl MemBuilder for Reloc {
+impl<const C0: usize> MemBuilder for Reloc<C0> {
     type Mem = RelocMem;
     fn build(&mut self, element_layout: Layout) -> RelocMem {
         log(Ev::B(element_layout.size(), element_layout.align()));
+        let bytes = element_layout.size() * C0;
         RelocMem {
-            ptr: element_layout.align() as *mut u8,
-            size: 0,
+            ptr: if bytes == 0 { element_layout.align() as *mut u8 } else { new_block(bytes, element_layout.align()) },
+            size: C0,
             layout: element_layout,
-            has_block: false,
+            has_block: bytes != 0,
         }
     }
 }
-impl MemBuilderSizeable for Reloc {
+impl<const C0: usize> MemBuilderSizeable for Reloc<C0> {
     fn build_with_size(&mut self, element_layout: Layout, capacity: usize) -> RelocMem {
         let mut m = self.build(element_layout);
         m.resize(capacity);
